@@ -216,8 +216,8 @@ def overlong_rescan_section(rng, run, quick):
                 octets = head + body + tail
                 free = len(octets) - 3
                 for mask in range(1 << free):
-                    if quick and free >= 6 and mask and (mask + extras + len(head_kind)) % 2:
-                        continue                                 # quick: half of the 64 patterns of the longest packets
+                    if quick and free >= 5 and mask and (mask + extras + len(head_kind)) % 2:
+                        continue                                 # quick: half of the 32 / 64 patterns of the longer packets
                     lens = (1, 2, 3, 4) if (mask and not quick) else ((1 + k % 4,) if mask else (0,))
                     for g in lens:
                         hg = k % 2 if mask else 0                      # head bytes: back to back, or one gap each
@@ -533,7 +533,8 @@ def check_C01(rep):
     base0 = {"Mode": '"token"', "Lat": LAT, "MinGap": MIN_GAP}
     base = dict(base0, FilterByAddress=True)
     if quick:
-        mcs = [dict(base, PidBytes={0xE1, 0xB4, 0xA5, 0xF1, 0xC3}, Payloads={5, 682}, Addrs={0, 5},
+        # (address changes are explored in the second and third model; the first one keeps the address fixed)
+        mcs = [dict(base, PidBytes={0xE1, 0xB4, 0xA5, 0xF1, 0xC3}, Payloads={5, 682}, Addrs={5},
                     MaxPackets=2, MaxExtra=1, MaxResets=0),
                dict(base, PidBytes={0xE1, 0xA5}, Payloads={5}, Addrs={0, 5},
                     MaxPackets=2, MaxExtra=1, MaxResets=1),
@@ -549,8 +550,10 @@ def check_C01(rep):
                dict(base0, FilterByAddress=False, PidBytes={0xE1, 0xB4, 0xA5, 0xF1, 0xC3}, Payloads={5, 682}, Addrs={0, 5},
                     MaxPackets=2, MaxExtra=1, MaxResets=1)]
     runs = [("MCPktDet", tlc.render_cfg(_cfg("MCPktDet.cfg.tmpl"), sub),
-             {"workers": 6, "timeout": 3000, "allow_uncovered": () if sub["MaxResets"] else ("Reset",)}) for sub in mcs]
-    for sub, res in zip(mcs, model_check_many(SPEC_DIR, runs, jobs=2)):
+             {"workers": 5, "timeout": 3000,
+              "allow_uncovered": (() if sub["MaxResets"] else ("Reset",)) + (() if len(sub["Addrs"]) > 1 else ("Readdress",))})
+            for sub in mcs]
+    for sub, res in zip(mcs, model_check_many(SPEC_DIR, runs, jobs=3)):
         rep.add_mc("MCPktDet token", res, {k: (sorted(v) if isinstance(v, set) else v) for k, v in sub.items()})
 
     # DUT configurations: the default one carries the systematic sweeps; the soups are additionally run on the other
